@@ -192,7 +192,7 @@ CORRS = [
 
 from props.c03_oracle import FINDINGS, ORACLES as _EVENT_ORACLES  # noqa: E402,F401
 
-ORACLES = list(_EVENT_ORACLES) + [c03_models.ORACLE]
+ORACLES = list(_EVENT_ORACLES) + [c03_models.ORACLE, c03_frag.ORACLE]
 
 TRUSTED = [
     "tokens → text: `Xs.Sax.render` is compared byte for byte with XMLGenerator's output; that this text parses to the infoset `Spec.XmlNs.infoset` assigns to the tokens is checked by sampling against expat and lxml, not proved (no XML parser in Lean); escape/quoteattr are proved invertible and markup-free (escape_inverse, quoteattr_inverse)",
